@@ -602,6 +602,20 @@ Definition sp_spare_write (c : cfg) (st : astate) (nx : N) (v : nat) (k : N) : o
   | Some a => Some (ok_res [] [] (set_a v (Some (with_xs a (a_xs a ++ next_ids c nx (N.to_nat k)))) st) (nx + k))
   end.
 
+(** the geometry of the byte / slice views (offset and extent of as_bytes, spare_bytes_mut, as_slice,
+    spare_capacity_mut; residue of the base address): on the backends whose capacity the backend kind fixes the list
+    and the backend determine it (the list specification does not carry the capacity of a resizable backend) *)
+Definition sp_views (c : cfg) (st : astate) (nx : N) (v : nat) : option sres :=
+  match get_a v st with
+  | Some a =>
+      match acap c (a_bk a) with
+      | Some cp => let l := N.of_nat (length (a_xs a)) in let s := c_sz c in
+                   Some (ok_res [0; l * s; l * s; (cp - l) * s; 0; l; l * s; cp - l; 0] [] st nx)
+      | None => None
+      end
+  | None => None
+  end.
+
 Definition spec_step (c : cfg) (st : astate) (nx : N) (o : op) : option sres :=
   match o with
   | ONew dst bk => sp_new c st nx dst bk
@@ -634,6 +648,7 @@ Definition spec_step (c : cfg) (st : astate) (nx : N) (o : op) : option sres :=
   | OWrite _ v idx => sp_write c st nx v idx
   | OSwap pr v1 i v2 j => if pr =? 0 then sp_swap c st nx v1 i v2 j else sp_swap_temp c st nx v1 i v2 j
   | OLazyDown _ v idx => sp_lazy_down c st nx v idx
+  | OViews v => sp_views c st nx v
   | OSpareWrite _ v k => sp_spare_write c st nx v k
   | ODownWrong v k idx =>
       (* a removal handle whose downcast to another type gives None: the element is destroyed as by a
